@@ -7,7 +7,7 @@
 //   graph   all assignments of a template to each of --files n files (see build_variants); --tset full|small; --rb k = number of
 //           xml:base variants on the root of the non-main files
 //   opts    main document = one include at each of 5 positions x the include-option catalogue x 8 forms of b.xml;
-//           --pairs 1: additionally two includes (first+last child) x catalogue^2 x plain b.xml; --pairs 2: two includes
+//           --pairs 1: additionally two includes (first+last child) x catalogue x every 4th catalogue entry x plain b.xml; --pairs 2: two includes
 //           (first+last child; nested+following sibling) x catalogue^2 x 3 forms of b.xml
 //   defects the minimised reproducers of KNOWN_DEFECTS, evaluated strictly (each is reported as a violation)
 //   leak    catalogue x 2 contexts re-executed under LeakSanitizer with a leak check after every case (the driver re-execs
@@ -442,7 +442,7 @@ static bool graph_case(uint64_t idx, Case& cs) {  // false: pruned (an unreachab
 // ---------------------------------------------------------------- space: opts
 static std::vector<Inc> O_cat;
 static std::vector<FileSpec> O_bforms;
-static int O_pairs = 0;   // 0 none, 1: template first+last x plain b, 2: both two-include templates x 3 forms of b
+static int O_pairs = 0;   // 0 none, 1: first+last child, catalogue x every 4th catalogue entry, plain b; 2: both two-include templates x catalogue^2 x 3 forms of b
 static void build_catalogue() {
     const int A = 0, B = 1, C = 2;
     auto add = [&](Inc q) { O_cat.push_back(q); };
@@ -479,7 +479,7 @@ static void build_catalogue() {
 static const int O_POS[] = {TP_DOCELEM, TP_FIRST, TP_MIDDLE, TP_LAST, TP_NESTED};
 static bool O_singles = true;
 static uint64_t opts_singles() { return O_singles ? 5ULL * O_cat.size() * O_bforms.size() : 0; }
-static uint64_t opts_total() { return opts_singles() + (O_pairs == 2 ? 2ULL * O_cat.size() * O_cat.size() * 3 : O_pairs == 1 ? 1ULL * O_cat.size() * O_cat.size() : 0); }
+static uint64_t opts_total() { return opts_singles() + (O_pairs == 2 ? 2ULL * O_cat.size() * O_cat.size() * 3 : O_pairs == 1 ? 1ULL * O_cat.size() * ((O_cat.size() + 3) / 4) : 0); }
 static uint64_t leak_total() { return 2ULL * O_cat.size(); }
 static void opts_case(uint64_t idx, Case& cs) {
     FileSpec a; int bform;
@@ -496,7 +496,9 @@ static void opts_case(uint64_t idx, Case& cs) {
     } else {
         idx -= opts_singles();
         if (O_pairs == 2) { bform = (int)(idx % 3); idx /= 3; } else bform = 0;
-        int c2 = (int)(idx % O_cat.size()); idx /= O_cat.size();
+        size_t n2 = O_pairs == 2 ? O_cat.size() : (O_cat.size() + 3) / 4;
+        int c2 = (int)(idx % n2); idx /= n2;
+        if (O_pairs != 2) c2 *= 4;
         int c1 = (int)(idx % O_cat.size()); idx /= O_cat.size();
         a.tmpl = idx ? TP_TWO_NS : TP_TWO_FL; a.inc[0] = O_cat[c1]; a.inc[1] = O_cat[c2];
         cs.label = "opts pair" + std::to_string(a.tmpl) + " [" + a.inc[0].str() + "] [" + a.inc[1].str() + "] b" + std::to_string(bform);
